@@ -245,7 +245,15 @@ def _validate(datum, schema, named_schemas, field, raise_errors, options):
         if logical_type:
             prepare = LOGICAL_WRITERS.get(logical_type)
             if prepare:
-                datum = prepare(datum, schema)
+                try:
+                    datum = prepare(datum, schema)
+                except ValueError:
+                    # Outside the domain of the logical type (a decimal the
+                    # precision, scale or size cannot hold): not valid here,
+                    # but another branch of a union may still take it
+                    if raise_errors:
+                        raise ValidationError(ValidationErrorData(datum, schema, field))
+                    return False
 
         validator = VALIDATORS.get(record_type)
         if validator:
